@@ -7,7 +7,7 @@ ids=("$@"); [ ${#ids[@]} -eq 0 ] && ids=($(ls seeded | grep -E '^C[0-9]+-[0-9]+$
 [ -z "$(git -C /repo status --porcelain)" ] || { echo "/repo not clean" >&2; exit 2; }
 for id in "${ids[@]}"; do
   prop=$(python3 -c "import json;print(json.load(open('seeded/$id/meta.json'))['property'])")
-  git -C /repo apply "seeded/$id/patch.diff" || { echo "$id: patch does not apply" >&2; continue; }
+  git -C /repo apply "/verif/seeded/$id/patch.diff" || { echo "$id: patch does not apply" >&2; continue; }
   out=$(VERIF_EVIDENCE_DIR=/verif/target/seedtest-evidence ./check "$prop" --tier quick 2>&1); rc=$?
   git -C /repo checkout -- . 
   classes=$(echo "$out" | grep -oE "^VIOLATION property=$prop replay=[^ ]+" | sed -E "s/.*replays\/$prop-//; s/-[0-9]+\.json//" | sort -u | tr '\n' ' ')
